@@ -7,6 +7,7 @@ import (
 	"fmt"
 	"go/token"
 	"go/types"
+	"sort"
 	"strings"
 
 	"golang.org/x/tools/go/ssa"
@@ -297,6 +298,86 @@ func ruleLexTcol(c *Ctx) []Obligation {
 			obs = append(obs, ok(R, con, c.InstrPos(first), fmt.Sprintf("%d write(s) of col, %d of tcol", moves, nT)))
 		} else {
 			obs = append(obs, bad(R, con, c.InstrPos(first), "the function moves the character column but leaves the tab-expanded column where it was: a double-quoted string that starts later on the same line measures its indentation against a stale column, so too little (or too much) is stripped from its continuation lines"))
+		}
+	}
+	// sibling agreement: every function that advances tcol treats the three character classes (newline, tab, any
+	// other) the way its siblings do. The rune-at-a-time reader and the bulk cursor update are two implementations
+	// of one counter; a double-quoted string measures its indentation with whichever ran last.
+	type classMap map[string]string
+	classOf := func(st *ssa.Store) string {
+		cls := ""
+		for _, g := range guardsAt(st.Block()) {
+			bo, isB := g.Cond.(*ssa.BinOp)
+			if !isB {
+				continue
+			}
+			k, okk := constInt(bo.Y)
+			if !okk {
+				continue
+			}
+			switch {
+			case bo.Op == token.EQL && k == 9 && g.Branch:
+				return "tab"
+			case bo.Op == token.EQL && k == 10 && g.Branch:
+				return "newline"
+			case bo.Op == token.GTR && k == 0 && g.Branch:
+				if call, isC := bo.X.(*ssa.Call); isC && calleeIs(call, "strings", "Count") {
+					return "newline"
+				}
+			case bo.Op == token.EQL && k == 9 && !g.Branch:
+				cls = "other"
+			}
+		}
+		return cls
+	}
+	maps := map[*ssa.Function]classMap{}
+	var movers []*ssa.Function
+	for _, fn := range c.Funcs {
+		if fn.Pkg == nil || shortPkg(fn.Pkg.Pkg.Path()) != "yang" || fn.Blocks == nil {
+			continue
+		}
+		cm := classMap{}
+		forward := false
+		for _, st := range storesToField(fn, fTcol) {
+			fp := exprFP(st.Val, 5)
+			if strings.Contains(fp, "+") {
+				forward = true
+			}
+			if cls := classOf(st); cls != "" {
+				if old, dup := cm[cls]; dup && old != fp {
+					fp = old + " | " + fp
+				}
+				cm[cls] = fp
+			}
+		}
+		if forward {
+			maps[fn] = cm
+			movers = append(movers, fn)
+		}
+	}
+	sort.Slice(movers, func(i, j int) bool { return c.FnName(movers[i]) < c.FnName(movers[j]) })
+	if len(movers) >= 2 {
+		for _, cls := range []string{"newline", "tab", "other"} {
+			con := fmt.Sprintf("every function that advances tcol treats a %s character alike", cls)
+			ref, diff := "", ""
+			for _, fn := range movers {
+				fp, has := maps[fn][cls]
+				if !has {
+					diff = fmt.Sprintf("%s has no tcol update for this class", c.FnName(fn))
+					break
+				}
+				if ref == "" {
+					ref = fp
+				} else if fp != ref {
+					diff = fmt.Sprintf("%s: %s, %s: %s", c.FnName(movers[0]), ref, c.FnName(fn), fp)
+					break
+				}
+			}
+			if diff == "" {
+				obs = append(obs, ok(R, con, c.Pos(movers[0].Pos()), fmt.Sprintf("%d functions: %s", len(movers), ref)))
+			} else {
+				obs = append(obs, bad(R, con, c.Pos(movers[len(movers)-1].Pos()), "the siblings disagree ("+diff+"): the tab-expanded column depends on which of them moved the cursor last, and the indentation stripped from a double-quoted string's continuation lines with it"))
+			}
 		}
 	}
 	return obs
